@@ -15,12 +15,12 @@ CONF = {
     'C01': dict(
         inv=['InvC01', 'InvViews'],
         mc=[('base', ENV_ALL, None), ('failure', ['Submit', 'RemoveApp', 'Down', 'Up', 'Freeze', 'RemoveServer', 'AddServer', 'Tick', 'SetPrio'], None)],
-        gen=['base', 'failure', 'affinity', 'identity'], weights=['pressure', 'failure'],
+        gen=['base', 'failure', 'affinity', 'identity', 'huge'], weights=['pressure', 'failure'],
         rule='a history counts when at least one cycle ends with an instance placed; distinct = distinct environment histories'),
     'C02': dict(
         inv=['InvC02', 'InvViews'],
         mc=[('topology', ['Submit', 'RemoveApp', 'Down', 'Up', 'RemoveServer', 'AddServer', 'Tick'], None)],
-        gen=['topology', 'tracker', 'base', 'affinity', 'identity'], probe=True,
+        gen=['topology', 'tracker', 'traits', 'affinity', 'identity'], probe=True,
         rule='a history counts when a probe instance is submitted to a quiescent cell and the leaf-scan oracle finds an up server that takes it as it is; distinct = distinct environment histories'),
     'C03': dict(
         inv=['InvC03', 'InvViews'],
@@ -116,7 +116,7 @@ def _gen(ctx, prop):
     return out
 
 
-L2_PROPS = {'C01': 160, 'C03': 120, 'C05': 100, 'C08': 100, 'C06': 120, 'C07': 40}
+L2_PROPS = {'C01': 160, 'C03': 120, 'C04': 80, 'C05': 100, 'C08': 100, 'C06': 120, 'C07': 40}
 
 
 def _l2_traces(ctx, prop, histories=None):
@@ -193,6 +193,16 @@ def _buckets(ctx):
                need_actions=['AddServer', 'RemoveServer', 'SetNotUp', 'Put', 'Remove'])
     if res['violated']:
         ctx.log('Buckets.tla: Sound violated in the MODEL (design level); see trace clause C02.prune for the code')
+    # unbounded in the number of operations: the invariant is inductive (Apalache)
+    obligations = [('Init => IndInv', 'Init', 'IndInv', 0),
+                   ('IndInv /\\ Next => IndInv\'', 'IndInit', 'IndInv', 1),
+                   ('IndInv => Sound', 'IndInit', 'Sound', 0)]
+    done = []
+    for name, init, inv, length in obligations:
+        r = tlc.apalache(sc.SPEC_DIR, 'BucketsApa', init, inv, length, timeout=300 if ctx.quick else 900)
+        done.append(dict(obligation=name, discharged=bool(r['ok']), wall_s=r['wall_s'], cmd=r['cmd']))
+        ctx.log('Apalache %s: %s (%.0fs)' % (name, 'discharged' if r['ok'] else 'NOT discharged rc=%s' % r['rc'], r['wall_s']))
+    ctx.notes.append(dict(apalache_inductive_invariant=done))
 
 
 def judge(ctx, prop, traces, verdicts):
@@ -238,7 +248,8 @@ def judge(ctx, prop, traces, verdicts):
         ctx, level='model_checking', violations=violations, evaluations=evaluations,
         distinct_nontrivial=len(nontrivial), rule=CONF[prop]['rule'], samples=samples,
         traces_validated=len(traces), assumptions=ASSUMPTIONS,
-        extra=dict(trace_sources=dict(collections.Counter(t.get('src') for t in traces))))
+        extra=dict(trace_sources=dict(collections.Counter(t.get('src') for t in traces)),
+                   notes=ctx.notes))
 
 
 def replay(ctx, prop, path):
